@@ -434,3 +434,51 @@ def cut_c(b, src, dst, cutset):
     if src in cutset or dst in cutset:
         return True
     return feasible_path(b, src, dst, cutset) is None
+
+
+READ_ONLY_KINDS = ('OPEN_READ',)
+
+
+def mutating_effects(b, *kinds):
+    return [e for e in b.effects(*kinds) if e.data['kind'] not in READ_ONLY_KINDS]
+
+
+def argparse_options(b):
+    """Declarations parser.add_argument(...) found in the graph:
+    [{flags, dest, action, default, const, type, node}]."""
+    out = []
+    for n in b.nodes('mcall'):
+        d = n.data
+        if d['name'] != 'add_argument':
+            continue
+        flags = [a.value for a in d['args'] if isinstance(a, Const) and
+                 isinstance(a.value, str)]
+        kw = d['kwargs']
+        dest = kw.get('dest')
+        if isinstance(dest, Const):
+            dest = dest.value
+        else:
+            longs = [f for f in flags if f.startswith('--')]
+            base = (longs or flags or ['?'])[0]
+            dest = base.lstrip('-').replace('-', '_')
+        out.append({'flags': flags, 'dest': dest, 'action': kw.get('action'),
+                    'default': kw.get('default'), 'const': kw.get('const'),
+                    'type': kw.get('type'), 'nargs': kw.get('nargs'), 'node': n,
+                    'choices': kw.get('choices')})
+    return out
+
+
+def is_option_value(t, dest):
+    """t is <parse_args(...) result>.<dest>."""
+    t = strip(t)
+    if isinstance(t, Attr) and t.name == dest:
+        base = strip(t.base)
+        return isinstance(base, MCall) and base.name in ('parse_args', 'parse_known_args')
+    return False
+
+
+def last_dominating(b, nid, kind):
+    for d in b.g.dominators(nid):
+        if d != nid and b.g.n(d).kind == kind:
+            return d
+    return None
